@@ -244,6 +244,79 @@ fn agg_corpus() -> Vec<(Program, Edb, &'static str)> {
     v
 }
 
+/// The production path: facts inserted and rules registered as PERSISTENT rules through the protocol
+/// handler (rule catalog, snapshot, rule text round trip), the query clause registered last and queried.
+/// Returns None when the handler refuses to register a rule (outside its accepted fragment).
+fn run_handler(rt: &tokio::runtime::Runtime, p: &Program, edb: &Edb) -> Option<Result<Vec<Tuple>, String>> {
+    use inputlayer::protocol::wire::WireValue;
+    use inputlayer::protocol::Handler;
+    use inputlayer::value::Value;
+    use inputlayer::{Config, StorageEngine};
+    let dir = tempfile::tempdir().expect("tempdir");
+    let mut cfg = Config::default();
+    cfg.storage.data_dir = dir.path().to_path_buf();
+    cfg.storage.performance.num_threads = 1;
+    let handler = Handler::new(StorageEngine::new(cfg).ok()?);
+    let kg = Some("default".to_string());
+    let val = |v: &Value| -> String {
+        match v {
+            Value::Int64(i) => format!("{}", i),
+            Value::String(s) => format!("\"{}\"", s),
+            other => format!("{:?}", other),
+        }
+    };
+    for (r, ts) in edb {
+        if ts.is_empty() {
+            continue;
+        }
+        let rows: Vec<String> = ts.iter().map(|t| format!("({},)", t.values().iter().map(|v| val(v)).collect::<Vec<_>>().join(", "))).collect();
+        let rows: Vec<String> = rows.iter().map(|r| if r.matches(',').count() > 1 { r.replace(",)", ")") } else { r.clone() }).collect();
+        let text = format!("+{}[{}]", rel_name(*r), rows.join(", "));
+        if rt.block_on(handler.query_program(kg.clone(), text)).is_err() {
+            return None;
+        }
+    }
+    for c in &p.clauses {
+        let r = rt.block_on(handler.query_program(kg.clone(), format!("+{}", c.iql())));
+        match r {
+            Ok(qr) => {
+                let m = format!("{:?}", qr.rows);
+                if m.contains("rror") || m.contains("nsafe") || m.contains("Unstratified") {
+                    return None;
+                }
+            }
+            Err(_) => return None,
+        }
+    }
+    let q = p.clauses.last().unwrap();
+    let vars: Vec<String> = (0..q.args.len()).map(|i| format!("V{}", i)).collect();
+    let r = rt.block_on(handler.query_program(kg.clone(), format!("?{}({})", rel_name(q.head), vars.join(", "))));
+    Some(match r {
+        Ok(qr) => Ok(qr
+            .rows
+            .iter()
+            .map(|row| {
+                Tuple::new(
+                    row.values
+                        .iter()
+                        .map(|w| match w {
+                            WireValue::Null => Value::Null,
+                            WireValue::Int32(i) => Value::Int32(*i),
+                            WireValue::Int64(i) => Value::Int64(*i),
+                            WireValue::Float64(f) => Value::Float64(*f),
+                            WireValue::String(s) => Value::String(s.as_str().into()),
+                            WireValue::Bool(b) => Value::Bool(*b),
+                            WireValue::Timestamp(t) => Value::Timestamp(*t),
+                            _ => Value::Null,
+                        })
+                        .collect(),
+                )
+            })
+            .collect()),
+        Err(e) => Err(e),
+    })
+}
+
 fn main() {
     let mut args = parse_args();
     let mode = if args.extra.is_empty() { "c01".to_string() } else { args.extra.remove(0) };
@@ -251,6 +324,7 @@ fn main() {
     let fuel = 60;
     match mode.as_str() {
         "c01" => {
+            let rt = tokio::runtime::Builder::new_multi_thread().worker_threads(2).enable_all().build().expect("rt");
             let mut sink = Sink::new(&args, "From IL Require Import Checks.C01.", "c01case", "c01_check", 10);
             let mut cases: Vec<(Program, Edb, Vec<&'static str>)> =
                 corpus().into_iter().map(|(p, e, tag)| (p, e, vec!["corpus", tag])).collect();
@@ -271,7 +345,21 @@ fn main() {
                 }
                 let text = p.iql();
                 let res = run_engine(&text, &edb, 0, 1, 0);
-                let coq = format!("C01Case {}%nat {} {} {}", fuel, p.coq(), edb_coq(&edb), coq_res(&res));
+                // every third case also goes through the production path (persistent rules via the handler)
+                let via_handler = if idx % 3 == 0 && !p.mutual() { run_handler(&rt, &p, &edb) } else { None };
+                match &via_handler {
+                    Some(Ok(_)) => sink.tally("handler:answered"),
+                    Some(Err(_)) => sink.tally("handler:error"),
+                    None => sink.tally("handler:not-run-or-refused"),
+                }
+                let coq = format!(
+                    "C01Case {}%nat {} {} {} {}",
+                    fuel,
+                    p.coq(),
+                    edb_coq(&edb),
+                    coq_res(&res),
+                    match &via_handler { Some(r) => format!("(Some {})", coq_res(r)), None => "None".to_string() }
+                );
                 let nontriv = match &res {
                     Ok(ts) if !ts.is_empty() => Some(format!("{}|{}|{}", text, edb_coq(&edb), tuples_key(ts))),
                     _ => None,
@@ -281,7 +369,7 @@ fn main() {
                     Err(_) => sink.tally("answer:error"),
                 }
                 sink.tally(&format!("clauses:{}", p.clauses.len()));
-                sink.push(coq, serde_json::json!({"program": text, "edb": edb_json(&edb), "engine_answer": json_res(&res)}), &tags, nontriv);
+                sink.push(coq, serde_json::json!({"program": text, "edb": edb_json(&edb), "engine_answer": json_res(&res), "handler_answer": via_handler.as_ref().map(json_res)}), &tags, nontriv);
             }
             sink.finish();
         }
